@@ -22,6 +22,9 @@ func evalCallable(
 		} else {
 			// TODO: error handling for pattern match exprs
 			arg = Eval(argNode, env)
+			if err, ok := arg.(*object.PanErr); ok {
+				return appendStackTrace(err, argNode.Source())
+			}
 		}
 
 		args = append(args, arg)
